@@ -1054,7 +1054,7 @@ def shrink(plan, want_sig, max_exec=200):
 # ---------------------------------------------------------------------------
 # check interface (see dst/main.py)
 # ---------------------------------------------------------------------------
-WALL_BUDGET = {'quick': 100, 'thorough': 1500}
+WALL_BUDGET = {'quick': 80, 'thorough': 1500}
 JOB_TIMEOUT = 2400
 
 
